@@ -230,7 +230,18 @@ def advanceWindow (s : State) (newBase : Nat) : R State :=
   let delta := pidSub newBase s.baseId
   let s := if pidSub s.endId s.baseId < delta then { s with endId := newBase } else s
   let base := s.baseId
-  match idLoop (fun s id => let i := widx s id; .ok (setSlot s i { getSlot s i with entryFlag := false })) loopFuel s base newBase with
+  match idLoop (fun s id =>
+      let i := widx s id
+      let sl := getSlot s i
+      if sl.dataFlag then
+        -- the window moves past a packet that was never delivered: release its data, fix the channel count
+        match s.chans[sl.chan]? with
+        | none => .error .index
+        | some ch =>
+          if ch.count = 0 then .error .overflow else
+          let s := setSlot s i { sl with entryFlag := false, dataFlag := false, data := none }
+          .ok { s with chans := s.chans.set sl.chan { ch with count := ch.count - 1 } }
+      else .ok (setSlot s i { sl with entryFlag := false })) loopFuel s base newBase with
   | .error t => .error t
   | .ok s =>
     match idLoop (fun s id => clearAsm s (widx s id)) loopFuel s base newBase with
